@@ -212,6 +212,27 @@ def r4_ownership(ctx, fam):
                         'self.eio.get_session', 'self.eio.save_session',
                         'self.eio.session'):
                     n += 1
+                    # the accepted repair of F2 resets / deletes the
+                    # namespace entry at admission or at namespace end
+                    stmt = None
+                    for st_ in walk_own(f.node):
+                        if isinstance(st_, (ast.Expr, ast.Delete,
+                                            ast.Assign)) and \
+                                node in list(ast.walk(st_)):
+                            stmt = st_
+                    clearing = stmt is not None and (
+                        isinstance(stmt, ast.Delete) or
+                        (isinstance(stmt, ast.Expr) and '.pop(' in U(stmt))
+                        or (isinstance(stmt, ast.Assign) and
+                            isinstance(stmt.value, ast.Dict) and
+                            not stmt.value.keys))
+                    if clearing and f.name in ('_handle_connect',
+                                               '_handle_disconnect',
+                                               'disconnect'):
+                        ctx.ok('%s.%s' % (cname, f.name), 'clears the '
+                               'namespace entry of the session',
+                               where(f, node))
+                        continue
                     ctx.check(f.name in ('get_session', 'save_session'),
                               '%s.%s' % (cname, f.name), 'engine.io session '
                               'accessed only by get_session/save_session',
